@@ -50,17 +50,25 @@ fn other_key(pool: &[KeyInfo], r: &mut Rng, avoid: &[usize]) -> usize {
 pub(crate) fn inject(prop: &str, s: &mut Scenario, r: &mut Rng, pool: &[KeyInfo]) -> Option<Fault> {
     let kinds: &[&str] = match prop {
         "C01" => &["caller_empty", "caller_unusable_key", "caller_unusable_key", "caller_superset", "caller_disjoint", "caller_alias", "caller_alias_described", "caller_alias_described", "owner_sig_missing", "owner_sig_corrupt", "owner_sig_mislabel", "owner_sig_duplicated", "owner_sig_duplicated_apart", "owner_sigs_under_foreign_ids", "owner_sigs_under_foreign_ids", "layout_tampered", "layout_command_resplit", "not_a_layout", "extra_sig", "layout_keys_refiled", "layout_keys_refiled", "none"],
-        "C06" => &["expired_1s", "expired_long", "expired_centuries", "expires_now", "expires_plus1", "expires_far_future", "offset_notation", "offset_expired", "sub_expired", "sub_expired_surplus", "sub_expired_surplus", "none"],
+        "C06" => &["expired_1s", "expired_long", "expired_centuries", "expires_now", "expires_plus1", "expires_far_future", "offset_notation", "offset_expired", "verified_again_after_expiry", "verified_again_after_expiry", "sub_expired", "sub_expired_surplus", "sub_expired_surplus", "none"],
         "C02" => &["step_without_functionaries", "step_without_functionaries", "link_removed", "link_wrong_signer", "link_mislabel", "link_tampered", "link_corrupt", "link_unauthorized", "key_not_in_table", "verifier_key_as_functionary", "verifier_key_as_functionary", "link_garbage", "link_misfiled", "link_cosigned_forgery", "cosigned_next_to_differing", "threshold_zero_nolinks", "threshold_zero_norules", "threshold_zero_norules", "threshold_zero_onelink", "threshold_raised", "threshold_raised", "link_wrong_type", "ghost_authorized_prefix", "ghost_authorized_prefix", "twin_unauthorized", "twin_unauthorized", "duplicate_step_unmet", "duplicate_step_unmet", "none"],
         "C07" => &["disagree_product_digest", "disagree_material_path", "disagree_extra_entry", "disagree_t1", "agree_extra_differs", "cosigned_next_to_differing", "disagree_path_spelling", "disagree_alias_entry", "disagree_algorithm_set", "disagree_algorithm_set", "disagree_empty_entry", "disagree_moved_across", "disagree_moved_across", "disagree_missing_entry", "disagree_missing_entry", "none"],
         "C13" => &["differing_links_t1", "differing_links_t1_rules", "none", "nested_namesake", "nested_namesake", "nested_namesake", "link_removed", "disagree_product_digest", "disagree_extra_entry", "cosigned_next_to_differing", "cosigned_next_to_differing", "digest_partial_agreement", "digest_partial_agreement", "sub_missing_link", "sub_rule", "sub_expired"],
-        "C08" => &["insp_exit", "insp_notfound", "insp_rule", "insp_rule_named_like_step", "pre_expired", "pre_badsig", "pre_link_removed", "pre_rule", "pre_disagree", "pre_cosigned_forgery", "pre_cosigned_forgery", "sub_expired", "sub_expired_surplus", "sub_expired_surplus", "sub_insp_exit_surplus", "sub_insp_exit_surplus", "sub_rule_surplus", "sub_tampered", "none"],
-        "C15" => &["no_steps", "no_steps_inner", "sub_wrong_signer", "sub_expired", "sub_missing_link", "sub_links_in_parent", "sub_rule", "sub_unauthorized_inner", "sub_delegator_key_as_functionary", "sub_delegator_key_as_functionary", "sub_tampered", "sub_insp_exit", "sub_insp_rule", "sub_dir_misnamed", "sub_dir_misnamed", "sub_misfiled", "sub_misfiled", "sub_rule_surplus", "sub_missing_link_surplus", "sub_expired_surplus", "sub_insp_exit_surplus", "none"],
+        "C08" => &["insp_exit", "insp_notfound", "insp_rule", "insp_rule_named_like_step", "pre_expired", "pre_badsig", "pre_link_removed", "pre_rule", "pre_disagree", "pre_cosigned_forgery", "pre_cosigned_forgery", "pre_co_sub_disagree", "pre_co_sub_disagree", "sub_expired", "sub_expired_surplus", "sub_expired_surplus", "sub_insp_exit_surplus", "sub_insp_exit_surplus", "sub_rule_surplus", "sub_tampered", "none"],
+        "C15" => &["no_steps", "no_steps_inner", "sub_wrong_signer", "sub_expired", "sub_missing_link", "sub_links_in_parent", "sub_inner_step_names_parent", "sub_inner_step_names_parent", "sub_rule", "sub_unauthorized_inner", "sub_delegator_key_as_functionary", "sub_delegator_key_as_functionary", "sub_tampered", "sub_insp_exit", "sub_insp_rule", "sub_dir_misnamed", "sub_dir_misnamed", "sub_misfiled", "sub_misfiled", "sub_rule_surplus", "sub_missing_link_surplus", "sub_expired_surplus", "sub_insp_exit_surplus", "none"],
+        // (C12: every way a signature can be attributed to, checked against or counted for another key than
+        // the one whose identifier it carries - at the root, in a step, in a sub-layout)
+        "C12" => &["link_cosigned_forgery", "link_cosigned_forgery", "link_mislabel", "link_misfiled", "link_wrong_signer", "owner_sig_mislabel", "owner_sigs_under_foreign_ids", "caller_alias", "caller_alias_described", "ghost_authorized_prefix", "twin_unauthorized", "sub_wrong_signer", "sub_misfiled", "key_not_in_table", "verifier_key_as_functionary", "layout_keys_refiled"],
         _ => &["none"],
     };
     let kind = *r.pick(kinds);
     if prop == "C07" && r.chance(1, 2) {
         if let Some(f) = inject_kind(prop, "co_sub_disagree", s, r, pool) {
+            return Some(f);
+        }
+    }
+    if prop == "C08" && r.chance(1, 3) {
+        if let Some(f) = inject_kind(prop, "pre_co_sub_disagree", s, r, pool) {
             return Some(f);
         }
     }
@@ -214,6 +222,14 @@ pub(crate) fn inject_kind(prop: &str, kind: &str, s: &mut Scenario, r: &mut Rng,
             None
         }
         // ---------------------------------------------------------------- C06
+        "verified_again_after_expiry" => {
+            // nothing is changed in any document: the very same layout (and sub-layouts), keys and link directory
+            // are verified a second time - at the same place, in the same process - when the layout has expired
+            // (the first verification, of the scenario as generated, takes place while it is valid)
+            let l = layout_mut(&mut s.block)?;
+            s.now = l.expires + Duration::seconds(*r.pick(&[1i64, 1, 60, 86_400, 400 * 86_400]));
+            Some(("C06", "the layout expired (verified again after its expiry: the same documents were verified before it, in the same process)".into(), true))
+        }
         "expired_1s" | "expired_long" | "expired_centuries" | "expires_now" | "expires_plus1" | "expires_far_future" | "offset_notation" | "offset_expired" => {
             let l = layout_mut(&mut s.block)?;
             let (e, fatal) = match kind {
@@ -405,7 +421,33 @@ pub(crate) fn inject_kind(prop: &str, kind: &str, s: &mut Scenario, r: &mut Rng,
                             "link_tampered" => {
                                 let orig = b.meta.clone();
                                 if let SMeta::Link(lk) = &mut b.meta {
-                                    lk.prods.push(("evil".into(), 7));
+                                    // an artifact more - or only another spelling of a path that is there, another
+                                    // digest, an entry less, another name
+                                    let arts_len = lk.prods.len() + lk.mats.len();
+                                    match if arts_len == 0 { 0 } else { r.below(6) } {
+                                        1 | 2 => {
+                                            let arts = if lk.prods.is_empty() || (!lk.mats.is_empty() && r.chance(1, 2)) { &mut lk.mats } else { &mut lk.prods };
+                                            let i = r.below(arts.len());
+                                            arts[i].0 = match r.below(4) {
+                                                0 => format!("./{}", arts[i].0),
+                                                1 => format!("x/../{}", arts[i].0),
+                                                2 => format!("{}/.", arts[i].0),
+                                                _ => format!(".//{}", arts[i].0),
+                                            };
+                                        }
+                                        3 => {
+                                            let arts = if lk.prods.is_empty() { &mut lk.mats } else { &mut lk.prods };
+                                            let i = r.below(arts.len());
+                                            arts[i].1 = if arts[i].1 == 21 { 22 } else { 21 };
+                                        }
+                                        4 => {
+                                            let arts = if lk.prods.is_empty() { &mut lk.mats } else { &mut lk.prods };
+                                            let i = r.below(arts.len());
+                                            arts.remove(i);
+                                        }
+                                        5 => lk.stdout.push_str(" (edited)"),
+                                        _ => lk.prods.push(("evil".into(), 7)),
+                                    }
                                 }
                                 b.signed_over = Some(Box::new(orig));
                                 desc = "the link was altered after signing";
@@ -722,6 +764,21 @@ pub(crate) fn inject_kind(prop: &str, kind: &str, s: &mut Scenario, r: &mut Rng,
                     }
                 }
             }
+            // (the `name` a link records is not what makes it evidence of a step - the file it is in is: a
+            // dissenting link that calls itself otherwise is a dissenting link of this step all the same)
+            if want_t2 && r.chance(1, 3) {
+                let other_step = l.steps.iter().map(|x| x.name.clone()).find(|n| *n != l.steps[si].name);
+                if let SFile::Block(b) = &mut s.dir.files[fi].1 {
+                    if let SMeta::Link(lk) = &mut b.meta {
+                        lk.name = match (r.below(4), other_step) {
+                            (0, Some(o)) => o,
+                            (1, _) => lk.name.to_uppercase(),
+                            (2, _) => "nightly".to_string(),
+                            _ => String::new(),
+                        };
+                    }
+                }
+            }
             if let SFile::Block(b) = &mut s.dir.files[fi].1 {
                 if let SMeta::Link(lk) = &mut b.meta {
                     match kind {
@@ -842,7 +899,7 @@ pub(crate) fn inject_kind(prop: &str, kind: &str, s: &mut Scenario, r: &mut Rng,
                 _ => Some(("C07", format!("links of a multi-party step disagree [{}] ({})", kind, l.steps[si].name), true)),
             }
         }
-        "co_sub_disagree" => {
+        "co_sub_disagree" | "pre_co_sub_disagree" => {
             // a multi-party step whose functionaries each hand in a sub-layout (the same one, or not): the
             // evidence in ONE of the sub-directories reports another product digest in its last step, so the
             // summaries the sub-layouts stand for differ
@@ -877,7 +934,7 @@ pub(crate) fn inject_kind(prop: &str, kind: &str, s: &mut Scenario, r: &mut Rng,
             if !changed {
                 return None;
             }
-            Some(("C07", format!("the sub-layouts handed in for a multi-party step stand for different artifacts [co_sub_disagree] ({})", l.steps[si].name), true))
+            Some((if kind == "pre_co_sub_disagree" { "C08" } else { "C07" }, format!("the sub-layouts handed in for a multi-party step stand for different artifacts [co_sub_disagree]: links of a multi-party step disagree ({})", l.steps[si].name), true))
         }
         // ---------------------------------------------------------------- C08
         "insp_rule_named_like_step" => {
@@ -1081,6 +1138,54 @@ pub(crate) fn inject_kind(prop: &str, kind: &str, s: &mut Scenario, r: &mut Rng,
                         }
                         s.dir.subs[sp].0 = r.pick(&cands).clone();
                         desc = format!("the sub-layout's links are in `{}` instead of its own sub-directory `{}`", s.dir.subs[sp].0, subname);
+                    }
+                    "sub_inner_step_names_parent" => {
+                        // the first inner step is called `../<name>`: its evidence would be `<name>.<id>.link` one
+                        // level up, in the enclosing layout's directory - where the (validly signed) link is put.
+                        // A sub-layout's evidence comes from its own sub-directory; a file of another directory is none.
+                        let sp = subdir_pos?;
+                        let il = layout_mut(b)?;
+                        if il.steps.is_empty() {
+                            return None;
+                        }
+                        let old = il.steps[0].name.clone();
+                        if old.contains(|c: char| "*?[]".contains(c)) {
+                            return None;
+                        }
+                        let up = format!("moved-{}", old.trim_start_matches('.'));
+                        let newname = format!("../{}", up);
+                        il.steps[0].name = newname.clone();
+                        for st in il.steps.iter_mut() {
+                            for rl in st.mats.iter_mut().chain(st.prods.iter_mut()) {
+                                if let ArtifactRule::Match { from, .. } = rl {
+                                    if *from == old {
+                                        *from = newname.clone();
+                                    }
+                                }
+                            }
+                        }
+                        let idx = evidence_files(&s.dir.subs[sp].1, &old);
+                        if idx.is_empty() {
+                            return None;
+                        }
+                        let mut moved = vec![];
+                        for &j in idx.iter().rev() {
+                            moved.push(s.dir.subs[sp].1.files.remove(j));
+                        }
+                        for (fname, mut f) in moved {
+                            if let SFile::Block(ib) = &mut f {
+                                match &mut ib.meta {
+                                    SMeta::Link(lk) => lk.name = newname.clone(),
+                                    _ => return None,
+                                }
+                            }
+                            let nn = format!("{}{}", up, &fname[old.len()..]);
+                            if s.dir.files.iter().any(|x| x.0 == nn) {
+                                return None;
+                            }
+                            s.dir.files.push((nn, f));
+                        }
+                        desc = "an inner step is named `../<name>` and its link lies in the enclosing directory, not in the sub-layout's own sub-directory".into();
                     }
                     "sub_delegator_key_as_functionary" => {
                         // an inner step lists the id of the key the sub-layout itself is verified with (the
@@ -1299,7 +1404,7 @@ pub fn run_into(sink: &mut Sink, cfg: &Cfg, prop: &str, n: usize) {
         // some of them with rules about the link files that a sibling's inspection leaves behind)
         let siblings = (prop == "C13" || prop == "C08") && i % 6 == 0;
         let allow_insp = matches!(prop, "C08") || siblings || r.chance(1, 4);
-        let mut g = Gen { r: &mut r, pool: &pool, insp_counter, force_delegate: prop == "C15" || ((prop == "C06" || prop == "C08" || prop == "C13") && i % 3 == 0), multi_party: (prop == "C07" && i % 3 != 0) || (prop == "C13" && i % 3 == 1), co_delegate: (prop == "C15" || prop == "C07") && i % 3 == 0, now: base_now(), reuse_keys: vec![], inner_insp_always: siblings };
+        let mut g = Gen { r: &mut r, pool: &pool, insp_counter, force_delegate: prop == "C15" || ((prop == "C06" || prop == "C08" || prop == "C13") && i % 3 == 0), multi_party: (prop == "C07" && i % 3 != 0) || (prop == "C13" && i % 3 == 1), co_delegate: ((prop == "C15" || prop == "C07") && i % 3 == 0) || (prop == "C08" && i % 6 == 3), now: base_now(), reuse_keys: vec![], inner_insp_always: siblings };
         let mut s = g.valid(depth, allow_insp);
         insp_counter = g.insp_counter;
         // (C06: where the verifier sits - zones west and east of Greenwich, whole and fractional hours)
@@ -1345,7 +1450,7 @@ pub fn run_into(sink: &mut Sink, cfg: &Cfg, prop: &str, n: usize) {
         // was just verified (same paths; files of unchanged size keep their modification time)
         let mut place = None;
         let mut base_answer = None;
-        if !s.faults.is_empty() && (prop == "C01" || i % 2 == 0) {
+        if !s.faults.is_empty() && (prop == "C01" || i % 2 == 0 || s.faults.iter().any(|f| f.1.contains("verified again"))) {
             let here = tempfile::Builder::new().prefix("itv-e2e-place-").tempdir().unwrap();
             let b = crate::e2e::run_at(&pool, &base, here.path(), false);
             sink.stat(if b.ok { "history/base-ok" } else { "history/base-err" });
@@ -1375,13 +1480,19 @@ pub fn run_into(sink: &mut Sink, cfg: &Cfg, prop: &str, n: usize) {
         for f in &s.faults {
             sink.stat(&format!("fault/{}", f.1.split(" (").next().unwrap()));
         }
-        sink.op(&out.op, &out.answer, true);
+        // (a step name with a path separator is outside the model - `unmodelled` -: such scenarios go to the
+        // oracles only)
+        if s.faults.iter().any(|f| f.1.contains("`../<name>`")) {
+            sink.stat("scenario/step-name-with-separator (oracle only)");
+        } else {
+            sink.op(&out.op, &out.answer, true);
+        }
         let replay = out.op.clone();
         sink.oracle(!out.panicked, "verification panicked", &replay);
         sink.oracle(!out.hung, "verification did not come back within 60 seconds", &replay);
         // ---- the property itself, from constructed ground truth
         for f in &fatal {
-            if f.0 == prop || (prop == "C08" && f.0 == "C08") {
+            if f.0 == prop || (prop == "C08" && f.0 == "C08") || prop == "C12" {
                 sink.oracle(!out.ok, &format!("verification succeeded although {}", f.1.split(" (").next().unwrap()), &replay);
             }
         }
